@@ -30,7 +30,7 @@ enum { RE_none = 0, RE_eager = 1, RE_lazy = 2 };          /* enum class region_e
 #ifndef XV_E
 #define XV_E 3                                            /* entries in the global thread list */
 #endif
-#define XV_MAXNE 4                                        /* array shape; number_epochs itself is read from the header */
+#define XV_MAXNE 3                                        /* array shape; number_epochs itself is read from the header */
 #define XV_GRACE 3                                        /* what the algorithm needs: a node retired with tag t may be freed at epoch n only if n - t >= 3 */
 #define TSAN_MEMORY_ORDER(tsan_order, normal_order) normal_order   /* port.hpp, non-TSan branch */
 #define XV_MIN_INT(a, b) ((int)(a) < (int)(b) ? (int)(a) : (int)(b))   /* std::min<int> */
@@ -68,7 +68,9 @@ struct tbl global_thread_block_list;
 struct olist orphans[XV_MAXNE];
 struct td ltd;
 #define local_thread_data ltd
-struct tcb ent[XV_E]; unsigned n_ent; unsigned own;
+/* the thread list: n_ent <= XV_E records; the record of this thread (own_cb) sits at position own, the others (oth[]) keep their order */
+struct tcb own_cb, oth[XV_E]; unsigned n_ent; unsigned own;
+static struct tcb* seq(unsigned i) { return i == own ? &own_cb : &oth[i < own ? i : i - 1]; }
 
 /* ================= guard level: thread_data is a stub that counts ================= */
 #define MARK_MASK ((mptr)3)
@@ -143,7 +145,8 @@ static chain_t all_nodes(void) {
 /* thread_block_list (contracts proved in unit tbl): iteration visits every entry once; acquire_entry returns an exclusively owned
  * active record that is either new or an ARBITRARY left-over one; release_entry frees an active record */
 struct tcb* acq_entry; unsigned n_acquire, n_release; struct tcb* rel_entry; _Bool rel_flag;
-static struct tcb* tbl_acquire_entry(void) { n_acquire++; acq_entry->state = ST_ACTIVE; return acq_entry; }
+void* own_flag_addr; void* own_le_addr; void* trk_flag_addr; void* trk_le_addr;   /* addresses the monitors compare against (kept as values: no dereference in the monitors) */
+static struct tcb* tbl_acquire_entry(void) { n_acquire++; acq_entry->state = ST_ACTIVE; own_flag_addr = &acq_entry->is_in_critical_region; own_le_addr = &acq_entry->local_epoch; return acq_entry; }
 static void tbl_release_entry(struct tcb* e) { if (e->state != ST_ACTIVE) stub_pre_violated = 1; e->state = ST_FREE; n_release++; rel_entry = e; rel_flag = e->is_in_critical_region; }
 #define TBL_acquire_entry(l) tbl_acquire_entry()
 #define TBL_release_entry(l, e) tbl_release_entry(e)
@@ -249,15 +252,14 @@ static void mon_load(void* a, uint64_t v, int o) {
   }
   if (in_scan) {
     last_scan_load_clk = xv_clock;
-    if (trk && a == (void*)&trk->is_in_critical_region) { trk_flag_seen = 1; trk_flag_val = (_Bool)v; trk_ep_seen = 0; }
-    if (trk && a == (void*)&trk->local_epoch) { trk_ep_seen = 1; trk_ep_val = v; }
+    if (a == trk_flag_addr) { trk_flag_seen = 1; trk_flag_val = (_Bool)v; trk_ep_seen = 0; }
+    if (a == trk_le_addr) { trk_ep_seen = 1; trk_ep_val = v; }
   }
 }
 static void mon_store(void* a, uint64_t v, int o) {
-  struct tcb* cb = ltd.control_block;
-  if (cb && a == (void*)&cb->is_in_critical_region) {
+  if (a == own_flag_addr) {
     if (v) { n_flag_true++; flag_true_clk = xv_clock; flag_true_order = o; } else { n_flag_false++; flag_false_clk = xv_clock; flag_false_order = o; }
-  } else if (cb && a == (void*)&cb->local_epoch) { n_le_store++; le_store_val = v; }
+  } else if (a == own_le_addr) { n_le_store++; le_store_val = v; }
   else if (a == (void*)&global_epoch) n_ge_store++;
   else n_other_store++;
 }
